@@ -53,7 +53,7 @@ def evaluate_single(case):
 @st.composite
 def single_cases(draw):
     kind = draw(st.sampled_from(["partition", "partition", "pack", "pack", "cover", "oversize", "cbldm-invalid"]))
-    pres = ["list", "list", "array", "array", "dict-str", "dict-int", "names"]
+    pres = ["list", "list", "array", "array", "dict-str", "dict-int", "names", "names-array"]
     if kind == "partition":
         case = draw(cases.partition_cases(presentations=pres, max_len=12))
     elif kind == "pack":
@@ -241,7 +241,7 @@ def history_cases(draw):
             inputs.append({"values": v, "pres": base["pres"], "nseed": base["nseed"]})
             continue
         n = draw(st.integers(2, 7))
-        inputs.append({"values": random_values(draw, n), "pres": draw(st.sampled_from(["list", "list", "array", "dict-str", "dict-int", "names"])),
+        inputs.append({"values": random_values(draw, n), "pres": draw(st.sampled_from(["list", "list", "array", "dict-str", "dict-int", "names", "names-array"])),
                        "nseed": draw(st.integers(0, 5))})
     calls = []
     ncalls = draw(st.integers(3, 9))
